@@ -353,6 +353,9 @@ func StructTypeField(tpe ast.BaseTerm, field ast.Constant) (ast.BaseTerm, error)
 			i++
 			return elems[i], nil
 		}
+		if !IsOptional(arg) {
+			i++ // Skip the type of this field; it is not a field name.
+		}
 	}
 	return nil, fmt.Errorf("no field %v in %v", field, tpe)
 }
